@@ -1,0 +1,5 @@
+//go:build !verif
+
+package desync
+
+func verifYield(site string) {}
